@@ -56,6 +56,18 @@ pub fn kinds_for(n: &[u8]) -> Vec<Kind> {
     v
 }
 
+/// array patterns of the large random streams go up to this length
+pub const MAX_ARR_BIG: usize = 24;
+
+/// `kinds_for` with array patterns up to `MAX_ARR_BIG` bytes (the large random streams)
+pub fn kinds_for_big(n: &[u8]) -> Vec<Kind> {
+    let mut v = kinds_for(n);
+    if n.len() > MAX_ARR && n.len() <= MAX_ARR_BIG {
+        v.push(Kind::Arr);
+    }
+    v
+}
+
 /// call a generic `konst::slice::bytes_*` function with the needle passed as a real value of the
 /// requested pattern kind: `with_bpat!(kind, needle, |p| ks::bytes_find(h, p))`
 macro_rules! with_bpat {
@@ -85,6 +97,22 @@ macro_rules! with_bpat {
                 6 => { let a__: [u8; 6] = n__.try_into().unwrap(); let $p = &a__; $body }
                 7 => { let a__: [u8; 7] = n__.try_into().unwrap(); let $p = &a__; $body }
                 8 => { let a__: [u8; 8] = n__.try_into().unwrap(); let $p = &a__; $body }
+                9 => { let a__: [u8; 9] = n__.try_into().unwrap(); let $p = &a__; $body }
+                10 => { let a__: [u8; 10] = n__.try_into().unwrap(); let $p = &a__; $body }
+                11 => { let a__: [u8; 11] = n__.try_into().unwrap(); let $p = &a__; $body }
+                12 => { let a__: [u8; 12] = n__.try_into().unwrap(); let $p = &a__; $body }
+                13 => { let a__: [u8; 13] = n__.try_into().unwrap(); let $p = &a__; $body }
+                14 => { let a__: [u8; 14] = n__.try_into().unwrap(); let $p = &a__; $body }
+                15 => { let a__: [u8; 15] = n__.try_into().unwrap(); let $p = &a__; $body }
+                16 => { let a__: [u8; 16] = n__.try_into().unwrap(); let $p = &a__; $body }
+                17 => { let a__: [u8; 17] = n__.try_into().unwrap(); let $p = &a__; $body }
+                18 => { let a__: [u8; 18] = n__.try_into().unwrap(); let $p = &a__; $body }
+                19 => { let a__: [u8; 19] = n__.try_into().unwrap(); let $p = &a__; $body }
+                20 => { let a__: [u8; 20] = n__.try_into().unwrap(); let $p = &a__; $body }
+                21 => { let a__: [u8; 21] = n__.try_into().unwrap(); let $p = &a__; $body }
+                22 => { let a__: [u8; 22] = n__.try_into().unwrap(); let $p = &a__; $body }
+                23 => { let a__: [u8; 23] = n__.try_into().unwrap(); let $p = &a__; $body }
+                24 => { let a__: [u8; 24] = n__.try_into().unwrap(); let $p = &a__; $body }
                 _ => unreachable!(),
             },
         }
@@ -248,6 +276,141 @@ pub fn random_case(rng: &mut Rng, alphabet: &[&[u8]], max_hay: usize, max_needle
     (letters.concat(), needle_letters.concat())
 }
 
+/// letter alphabets of the large streams; `raw` ones are not UTF-8 (byte-slice functions only)
+#[derive(Clone, Copy, PartialEq, Eq, Debug)]
+pub enum Alpha {
+    /// {a, b}
+    Two,
+    /// {a, b, c, d}
+    Four,
+    /// all 256 byte values
+    Raw256,
+    /// {a, ñ, €, 😀}: one letter of each encoded length
+    Utf4,
+    /// any scalar value (`util::rand_char`)
+    AnyChar,
+}
+
+impl Alpha {
+    pub fn letter(self, rng: &mut Rng) -> Vec<u8> {
+        match self {
+            Alpha::Two => vec![b'a' + rng.below(2) as u8],
+            Alpha::Four => vec![b'a' + rng.below(4) as u8],
+            Alpha::Raw256 => vec![rng.below(256) as u8],
+            Alpha::Utf4 => ["a", "ñ", "€", "😀"][rng.below(4) as usize].as_bytes().to_vec(),
+            Alpha::AnyChar => rand_char(rng).to_string().into_bytes(),
+        }
+    }
+    pub fn is_utf8(self) -> bool {
+        self != Alpha::Raw256
+    }
+}
+
+/// LARGE structured case: a haystack of 20..=200 letters and a needle of 5..=24 letters that is random
+/// or has a long period ("abababac", "aaaaaab", "abcabcabc"), planted 0..=3 times (at the very start,
+/// at the very end, anywhere, overlapping its previous copy by a multiple of the period) into a filler
+/// that is random or made of the needle's period (long partial matches everywhere); sometimes the
+/// needle is longer than the haystack.  Returns (haystack, needle) as bytes.
+pub fn large_case(rng: &mut Rng, alpha: Alpha) -> (Vec<u8>, Vec<u8>) {
+    let nl = 5 + rng.below(20) as usize;
+    let period = 1 + rng.below(3) as usize;
+    let unit: Vec<Vec<u8>> = (0..period).map(|_| alpha.letter(rng)).collect();
+    let shape = rng.below(4);
+    let mut needle: Vec<Vec<u8>> = match shape {
+        0 => (0..nl).map(|_| alpha.letter(rng)).collect(),
+        _ => (0..nl).map(|i| unit[i % period].clone()).collect(),
+    };
+    if shape == 1 || shape == 2 {
+        // periodic with a different last letter (shape 2: also a different first one)
+        needle[nl - 1] = alpha.letter(rng);
+        if shape == 2 && rng.below(2) == 0 {
+            needle[0] = alpha.letter(rng);
+        }
+    }
+    let mut hl = 20 + rng.below(181) as usize;
+    let longer = rng.below(14) == 0;
+    if longer {
+        hl = 1 + rng.below(nl as u64 - 1) as usize; // needle longer than the haystack
+    } else if hl < nl + 2 {
+        hl = nl + rng.below(3) as usize; // exactly as long as the needle, or barely longer
+    }
+    let periodic_filler = shape != 0 && rng.below(2) == 0;
+    let phase = rng.below(period as u64) as usize;
+    let mut hay: Vec<Vec<u8>> =
+        (0..hl).map(|i| if periodic_filler { unit[(i + phase) % period].clone() } else { alpha.letter(rng) }).collect();
+    if longer {
+        if rng.below(2) == 0 {
+            // the haystack is a prefix / suffix of the needle
+            let st = if rng.below(2) == 0 { 0 } else { nl - hl };
+            hay = needle[st..st + hl].to_vec();
+        }
+    } else {
+        let plants = rng.below(4);
+        let mut prev: Option<usize> = None;
+        for _ in 0..plants {
+            let shift = period * (1 + rng.below(3) as usize);
+            let pos = match (rng.below(5), prev) {
+                (0, _) => 0,
+                (1, _) => hl - nl,
+                (2, Some(p)) if p + shift + nl <= hl => p + shift,
+                _ => rng.below((hl - nl + 1) as u64) as usize,
+            };
+            hay[pos..pos + nl].clone_from_slice(&needle);
+            prev = Some(pos);
+        }
+        if rng.below(6) == 0 {
+            // a near miss at the very end / start: the needle without its last / first letter
+            if rng.below(2) == 0 {
+                hay[hl - (nl - 1)..].clone_from_slice(&needle[..nl - 1]);
+            } else {
+                hay[..nl - 1].clone_from_slice(&needle[1..]);
+            }
+        }
+    }
+    (hay.concat(), needle.concat())
+}
+
+/// LARGE case with a one-character needle (the `char` pattern kind): a long string of random
+/// characters with the needle character planted 0..=3 times (start / end / anywhere)
+pub fn large_char_case(rng: &mut Rng) -> (Vec<u8>, Vec<u8>) {
+    let alpha = if rng.below(2) == 0 { Alpha::Utf4 } else { Alpha::AnyChar };
+    let plants = rng.below(4);
+    // an absent needle: a character the small alphabet does not have
+    let c = if plants == 0 { Alpha::AnyChar.letter(rng) } else { alpha.letter(rng) };
+    let hl = 20 + rng.below(101) as usize;
+    let mut hay: Vec<Vec<u8>> = (0..hl).map(|_| alpha.letter(rng)).collect();
+    for _ in 0..plants {
+        let pos = match rng.below(4) {
+            0 => 0,
+            1 => hl - 1,
+            _ => rng.below(hl as u64) as usize,
+        };
+        hay[pos] = c.clone();
+    }
+    (hay.concat(), c)
+}
+
+fn run_large(thorough: bool, seed: u64, out: &mut Out) {
+    let mut rng = Rng(seed ^ 0xC04_1A26E);
+    let cases = if thorough { 2400 } else { 240 };
+    for i in 0..cases {
+        let alpha = [Alpha::Two, Alpha::Four, Alpha::Raw256, Alpha::Utf4, Alpha::AnyChar, Alpha::Two][i % 6];
+        if i % 8 == 7 {
+            let (h, n) = large_char_case(&mut rng);
+            bytes_case(&h, &n, if i % 16 == 7 { Kind::Char } else { Kind::Arr }, out);
+            str_case(std::str::from_utf8(&h).unwrap(), &n, if i % 32 == 31 { Kind::Str } else { Kind::Char }, out);
+            continue;
+        }
+        let (h, n) = large_case(&mut rng, alpha);
+        let kinds = kinds_for_big(&n);
+        bytes_case(&h, &n, kinds[(i / 6) % kinds.len()], out);
+        if let (Ok(hs), true) = (std::str::from_utf8(&h), std::str::from_utf8(&n).is_ok()) {
+            let sk = str_kinds(&n);
+            str_case(hs, &n, sk[(i / 6) % sk.len()], out);
+        }
+    }
+}
+
 pub fn run(tier: &str, seed: u64, out: &mut Out) {
     let thorough = tier == "thorough";
     let (max_h, max_n) = if thorough { (11, 5) } else { (8, 4) };
@@ -342,4 +505,5 @@ pub fn run(tier: &str, seed: u64, out: &mut Out) {
         let sk = str_kinds(&n);
         str_case(hs, &n, sk[i % sk.len()], out);
     }
+    run_large(thorough, seed, out);
 }
